@@ -1,11 +1,25 @@
 (* Properties_C02.v — C02: parsing accepts exactly the documented grammar and builds the tree it denotes.
-   PARTIAL.  Proved: soundness of the parser model with respect to the documented grammar — whatever the
-   parser accepts is derivable (Dsettings: the manual's BNF as an inductive relation over token lists, with
-   the same optional separators and trailing commas); rejection of duplicate names; the error messages.
-   NOT proved: completeness (every derivable, semantically valid token list is accepted — needs a fuel
-   sufficiency argument and the semantic conditions), the denoted tree and the first-error characterisation.
-   Those are tied on every run by the exhaustive-bounded token-sequence correspondence against the real
-   library and against a reference parser written from the manual (pygen/refparse.py).
+   Proved (for the parser model on the scanner's located tokens, and carried to config_read):
+     - the documented grammar as derivation relations over token lists (Dsettings: the manual's BNF with its
+       optional separators and trailing commas) and, equivalently, as concrete syntax trees (cst) that spell
+       a located token list (C02_grammar_trees, C02_trees_grammar);
+     - soundness: whatever is accepted is derivable (C02_sound, C02_read_sound);
+     - completeness and the denoted tree: every derivation that meets the semantic conditions - one scalar type
+       per array, valid names, no name twice in a group unless overrides are on (then the last definition wins:
+       the earlier member is deleted and the new one appended) - is accepted, in any position, with the fuel
+       p_config provides, and the configuration built is exactly the denoted one: settings, order, types, values,
+       integer formats, concatenated strings and, for every named setting, the line and file of its name
+       (C02_complete, C02_accept_iff, C02_denotes, C02_read_accept_iff, C02_read_denotes);
+     - semantic errors: a derivable text that breaks a semantic condition fails with the message of the FIRST
+       offence in reading order, at that offence's line and file (C02_reject_semantic, C02_read_reject_semantic;
+       the position of a mismatched STRING element is that of the token after it: known finding F4);
+     - rejection of underivable token lists (C02_reject_underivable) and the messages (C02_messages).
+   NOT proved: that a syntax error is reported at the first token that cannot continue a derivation (the
+   viable-prefix property of the LALR automaton; the model's recursive descent is proved equivalent on
+   acceptance only), and that the fuel suffices on rejected inputs (PStuck is excluded for accepted and for
+   semantically rejected derivations only).  Both are tied on every run by the exhaustive-bounded token-sequence
+   correspondence against the real library and against a reference parser written from the manual
+   (pygen/refparse.py).
    The parser model is a recursive-descent function performing the grammar.y actions in bison's order;
    grammar.c's LALR tables are not translated (DESIGN.md section 8).  Composition with the scanner: the
    tokens are those of C18.
@@ -13,7 +27,8 @@
    Known finding F4: a mismatched STRING array element is reported at the line of the token after it. *)
 From Coq Require Import List ZArith Bool.
 Import ListNotations.
-From LC Require Import Base Tree Fp Lookup Api ScanAction Tokens Lexer Parser GrammarFacts Reader Writer WriterFacts LexWrite ParseWrite.
+From LC Require Import Base Tree Fp Lookup Api ScanAction Tokens Lexer Parser GrammarFacts Reader Writer WriterFacts LexWrite ParseWrite
+  ParseComplete ParseFail ParseExact.
 From LC.gen Require Import Consts.
 Local Open Scope Z_scope.
 
@@ -82,6 +97,81 @@ Theorem C02_canonical_configuration : forall fmt_double atof c overrides n kids 
 Proof. exact parse_written. Qed.
 Print Assumptions C02_canonical_configuration.
 
+(* ---- the grammar as concrete syntax trees ---- *)
+(* every derivation of the tokens of a located token list is spelled by a well-formed tree ... *)
+Theorem C02_grammar_trees : forall ts, Dsettings ts -> forall lts, map lt_tok lts = ts ->
+  exists ms, wf_m ms = true /\ toks_m ms = map ltp lts.
+Proof. exact (proj2 (proj2 (proj2 cst_of_derivation))). Qed.
+Print Assumptions C02_grammar_trees.
+
+(* ... and every well-formed tree spells a derivation *)
+Theorem C02_trees_grammar : forall ms, wf_m ms = true -> Dsettings (map fst (toks_m ms)).
+Proof. exact (proj2 (proj2 (proj2 derivation_of_cst))). Qed.
+Print Assumptions C02_trees_grammar.
+
+(* ---- completeness: in every position, whatever follows ---- *)
+Theorem C02_complete : forall overrides,
+  (forall v, Pv overrides v) /\ (forall es, Pe overrides es) /\ (forall tl, Pt overrides tl) /\ (forall ms, Pm overrides ms).
+Proof. exact complete_all. Qed.
+Print Assumptions C02_complete.
+
+(* ---- exactly the derivable, semantically valid token lists are accepted ---- *)
+Theorem C02_accept_iff : forall ov root0, s_pl root0 = PGroup -> s_kids root0 = [] -> forall lts,
+  (exists s', p_config ov (mkP root0 lts false O 0 None) = POk s') <->
+  (exists ms, wf_m ms = true /\ spells ms lts /\ sem_m ov ms [] = true).
+Proof. exact accept_iff. Qed.
+Print Assumptions C02_accept_iff.
+
+(* ---- the tree that is built is the denoted one ---- *)
+Theorem C02_denotes : forall ov root0, s_pl root0 = PGroup -> s_kids root0 = [] -> forall lts s' ms,
+  p_config ov (mkP root0 lts false O 0 None) = POk s' -> wf_m ms = true -> spells ms lts ->
+  pobs (p_root s') = PN (s_name root0) (spos_of root0) PGroup (s_fmt root0) (den_m ms []).
+Proof. exact accept_denotes. Qed.
+Print Assumptions C02_denotes.
+
+(* ---- a semantic offence: its own error, at its own position, and it is the first one ---- *)
+Theorem C02_reject_semantic : forall ov root0, s_pl root0 = PGroup -> s_kids root0 = [] -> forall lts ms,
+  wf_m ms = true -> spells ms lts -> sem_m ov ms [] = false ->
+  exists e ep s', err_m ov ms [] = Some (e, ep) /\ p_config ov (mkP root0 lts false O 0 None) = PErr e s' /\
+                  epos s' = ep /\ (e = PErrDup \/ e = PErrMismatch).
+Proof. exact reject_semantic. Qed.
+Print Assumptions C02_reject_semantic.
+
+Theorem C02_reject_underivable : forall ov root0 lts,
+  (forall ts rest, map lt_tok lts = ts ++ TkEOF :: rest -> ~ Dsettings ts) ->
+  forall s', p_config ov (mkP root0 lts false O 0 None) <> POk s'.
+Proof. exact reject_underivable. Qed.
+Print Assumptions C02_reject_underivable.
+
+(* ---- the same for config_read (nesting within the parser stack limit) ---- *)
+Theorem C02_read_accept_iff : forall atof FS c top text,
+  let toks := fst (lex_top atof FS (set_files (set_root (set_err c err0) new_root) []) top text) in
+  max_nest toks 0 0 <= NEST_LIMIT ->
+  (rd_out_ (config_read atof FS c top text) = RdOk <->
+   exists ms, wf_m ms = true /\ spells ms toks /\ sem_m (get_option c OPT_OVERRIDES) ms [] = true).
+Proof. exact read_accept_iff. Qed.
+Print Assumptions C02_read_accept_iff.
+
+Theorem C02_read_denotes : forall atof FS c top text,
+  let toks := fst (lex_top atof FS (set_files (set_root (set_err c err0) new_root) []) top text) in
+  max_nest toks 0 0 <= NEST_LIMIT -> forall ms,
+  rd_out_ (config_read atof FS c top text) = RdOk -> wf_m ms = true -> spells ms toks ->
+  pobs (c_root (rd_cfg (config_read atof FS c top text))) = PN None None PGroup 0 (den_m ms []).
+Proof. exact read_denotes. Qed.
+Print Assumptions C02_read_denotes.
+
+Theorem C02_read_reject_semantic : forall atof FS c top text,
+  let toks := fst (lex_top atof FS (set_files (set_root (set_err c err0) new_root) []) top text) in
+  max_nest toks 0 0 <= NEST_LIMIT -> forall ms,
+  wf_m ms = true -> spells ms toks -> sem_m (get_option c OPT_OVERRIDES) ms [] = false ->
+  Forall (fun t => lt_err t = None) toks ->
+  exists e l fi, err_m (get_option c OPT_OVERRIDES) ms [] = Some (e, (l, fi)) /\
+                 rd_out_ (config_read atof FS c top text) = RdFail /\
+                 c_err (rd_cfg (config_read atof FS c top text)) = mkErr 2 (Some (perr_text e)) fi l /\
+                 (e = PErrDup \/ e = PErrMismatch).
+Proof. exact read_reject_semantic. Qed.
+Print Assumptions C02_read_reject_semantic.
+
 (* non-vacuity *)
 Definition mk (t : token) : ltoken := mkLT t 1 None None [] [] [].
 Example C02_example :
@@ -91,3 +181,56 @@ Example C02_example :
   match p_config false (mkP new_root (map mk [TkName [97]; TkP TEquals; TkP TArrayStart; TkP TComma; TkInt 1; TkP TArrayEnd; TkEOF])
                             false O 0 None) with PErr PErrSyntax _ => True | _ => False end.
 Proof. vm_compute. split; exact I. Qed.
+
+(* a derivation with nesting, an extra comma, adjacent strings, an empty list, hexadecimal and a redefinition:
+     a = 1;  b = { c = [1, 0x2,]  d = ("x" "y", (), 2.5), }  a = true
+   its trees, conditions, denotation and errors are evaluated, and the parser is run on its tokens *)
+Definition P (l : Z) : spos := (l, None).
+Definition ex_ms : cmembers :=
+  MCons [97] (P 1) (P 1) (CScal (TkInt 1) (P 1)) (TmSemi (P 1))
+ (MCons [98] (P 2) (P 2)
+    (CGrp (P 2)
+       (MCons [99] (P 3) (P 3)
+          (CArr (P 3) (ECons (CScal (TkInt 1) (P 3)) (TlCommaV (P 3) (CScal (TkHex 2) (P 3)) (TlComma (P 3) TlNil))) (P 3)) TmNone
+       (MCons [100] (P 4) (P 4)
+          (CLst (P 4) (ECons (CStr [120] (P 4) [([121], P 4)])
+                       (TlCommaV (P 4) (CLst (P 4) ENil (P 4)) (TlCommaV (P 4) (CScal (TkFloat 4612811918334230528) (P 4)) TlNil))) (P 4))
+          (TmComma (P 4)) MNil))
+       (P 5)) TmNone
+ (MCons [97] (P 6) (P 6) (CScal (TkBool 1) (P 6)) TmNone MNil)).
+Definition ex_lts : list ltoken :=
+  map (fun x => mkLT (fst x) (fst (snd x)) (snd (snd x)) None [] [] []) (toks_m ex_ms ++ [(TkEOF, P 7)]).
+
+Example C02_example_tree :
+  wf_m ex_ms = true /\ spells ex_ms ex_lts /\
+  sem_m true ex_ms [] = true /\ sem_m false ex_ms [] = false /\ err_m false ex_ms [] = Some (PErrDup, P 6) /\
+  den_m ex_ms [] =
+    [PN (Some [98]) (Some (P 2)) PGroup 0
+        [PN (Some [99]) (Some (P 3)) PArray 0 [PN None None (PInt 1) 0 []; PN None None (PInt 2) 1 []];
+         PN (Some [100]) (Some (P 4)) PList 0
+            [PN None None (PStr (Some [120; 121])) 0 []; PN None None PList 0 []; PN None None (PFloat 4612811918334230528) 0 []]];
+     PN (Some [97]) (Some (P 6)) (PBool 1) 0 []] /\
+  match p_config true (mkP new_root ex_lts false O 0 None) with
+  | POk s => pobs (p_root s) = PN None None PGroup 0 (den_m ex_ms [])
+  | _ => False end /\
+  match p_config false (mkP new_root ex_lts false O 0 None) with
+  | PErr PErrDup s => epos s = P 6
+  | _ => False end.
+Proof.
+  split; [reflexivity|]. split; [exists (P 7), []; reflexivity|].
+  split; [vm_compute; reflexivity|]. split; [vm_compute; reflexivity|]. split; [vm_compute; reflexivity|].
+  split; [vm_compute; reflexivity|]. split; vm_compute; reflexivity.
+Qed.
+
+(* a mismatched array element: the first one whose type differs from the first element's *)
+Definition ex_bad : cmembers :=
+  MCons [97] (P 1) (P 1)
+    (CArr (P 1) (ECons (CScal (TkInt 1) (P 1)) (TlCommaV (P 1) (CScal (TkInt64 2) (P 2)) (TlCommaV (P 2) (CScal (TkFloat 0) (P 3)) TlNil))) (P 3))
+    TmNone MNil.
+Example C02_example_mismatch :
+  wf_m ex_bad = true /\ err_m true ex_bad [] = Some (PErrMismatch, P 2) /\
+  match p_config true (mkP new_root (map (fun x => mkLT (fst x) (fst (snd x)) (snd (snd x)) None [] [] []) (toks_m ex_bad ++ [(TkEOF, P 4)]))
+                           false O 0 None) with
+  | PErr PErrMismatch s => epos s = P 2
+  | _ => False end.
+Proof. split; [reflexivity|]. split; vm_compute; reflexivity. Qed.
